@@ -35,6 +35,13 @@ def run(ctx):
                 # one iterating/erasing thread against lock-free readers and writers
                 for key in (2, 4):
                     jobs.append((cfg, [['itf %d' % key, 'ite', 'itr'], ['get 4'], ['get 5']], 'prefix', 90, ctx['seed'], ()))
+                if hsh == 'const':
+                    # erase(iterator) of an extension item (head / middle of the chain 6 -> 5 -> 4) while lock-free readers walk the chain
+                    # towards a key behind it: the version bump must survive the iterator leaving the bucket
+                    cfg6 = dict(cfg, init='1.2.3.4.5.6')
+                    for key in (5, 6):
+                        jobs.append((cfg6, [['itf %d' % key, 'ite', 'itr'], ['get 4'], ['get 4', 'get 5']], 'prefix', 120, ctx['seed'], ()))
+                        jobs.append((cfg6, [['itf %d' % key, 'ite', 'itn', 'itr'], ['get 4', 'get 4'], ['get %d' % key]], 'dfs', n, ctx['seed'], ('--pb', '2')))
                 jobs.append((cfg, vhm_program(rng, 3, 3, iter_thread=0), 'random', n, ctx['seed'], ()))
                 jobs.append((cfg, vhm_program(rng, 3, 3, iter_thread=0), 'pct', n, ctx['seed'], ('--depth', '3')))
         do_search(ctx, H, jobs, name, classify=lambda c, h, f, name=name: {'harness': name})
